@@ -20,6 +20,7 @@ import (
 var (
 	DatasetNotFoundErr      error = errors.New("Dataset not found")
 	DatasetAlreadyExistsErr error = errors.New("Dataset already exists")
+	InvalidDatasetConfigErr error = errors.New("Dataset dimension, partition count and replication factor must be at least 1")
 )
 
 type DatasetManager struct {
@@ -104,6 +105,10 @@ func (this *DatasetManager) Get(id uuid.UUID) (*Dataset, error) {
 }
 
 func (this *DatasetManager) Create(ctx context.Context, dataset *pb.Dataset) (*Dataset, error) {
+	if dataset.GetDimension() == 0 || dataset.GetPartitionCount() == 0 || dataset.GetReplicationFactor() == 0 {
+		return nil, InvalidDatasetConfigErr
+	}
+
 	ctx, cancelCtx := context.WithTimeout(ctx, 1*time.Second)
 	defer cancelCtx()
 
